@@ -169,7 +169,10 @@ DIRECTED = {
     'other.py': 'from dpk import Delta\nclass O(Delta):\n    pass\n',
     # members that tie under either member order (one source line; names differing only in case), inherited over two levels
     'dpk/ties.py': 'class Many:\n    a = b = c = d = e = f = 0\n    """one line, several names"""\n    Aa = 1; aA = 2; AA = 3; aa = 4\n    def Mm(self): pass\n    def mM(self): pass\n'
-                   'class Derived(Many):\n    """Inherits all of them."""\nclass Deeper(Derived):\n    g = h = i = 0\nx = y = z = 1\n',
+                   'class Derived(Many):\n    """Inherits all of them."""\nclass Deeper(Derived):\n    g = h = i = 0\nx = y = z = 1\n'
+                   # a member overridden in subclasses whose names differ in case only, one of them reachable through two bases
+                   'class TBase:\n    def run(self):\n        """run"""\nclass Worker(TBase):\n    def run(self): pass\nclass worker(TBase):\n    def run(self): pass\n'
+                   'class WORKER(TBase):\n    def run(self): pass\nclass Both(Worker, worker):\n    def run(self): pass\nclass both(worker, Worker):\n    def run(self): pass\n',
     # several interfaces that declare the same members, implemented by one base class and inherited: which interface a member is
     # attributed to ("from IXxx") must not depend on the hash seed
     'dpk/zi.py': 'from zope.interface import Interface, implementer, Attribute\n' +
@@ -194,6 +197,11 @@ def run_case(case: Dict[str, Any]) -> core.Res:
             _judge(res, 'directed', [str(base / 'dpk'), str(base / 'other.py')], [], case['configs'], {'project': 'directed', 'sources': DIRECTED}, epoch=True)
             _judge(res, 'directed/source-order', [str(base / 'dpk'), str(base / 'other.py')], ['--cls-member-order=source', '--mod-member-order=source'], case['configs'],
                    {'project': 'directed', 'args': ['--cls-member-order=source', '--mod-member-order=source'], 'sources': DIRECTED}, epoch=1577836800)
+            # the roots given the way a configuration file gives them (the repeatable add-package option) instead of as arguments
+            for extra_root in ('r2.py', 'r3.py', 'r4.py'):
+                (base / extra_root).write_text(f'"""Root {extra_root}."""\nclass R:\n    pass\n')
+            ap = [f'--add-package={base / x}' for x in ('dpk', 'other.py', 'r2.py', 'r3.py', 'r4.py')]
+            _judge(res, 'directed/add-package', [], ap, case['configs'], {'project': 'directed', 'args': ['--add-package=... x5'], 'sources': DIRECTED}, epoch=True)
         finally:
             shutil.rmtree(base, ignore_errors=True)
         res.sample({'directed': sorted(DIRECTED)})
